@@ -235,6 +235,8 @@ class Interp:
                 return tuple(v.args)
         if isinstance(v, Sym):
             return Sym(f"{v.text}.{name}")
+        if isinstance(v, App):
+            return Sym(f"{v!r}.{name}")
         raise Unsupported(f"attribute .{name} of {type(v).__name__} at line {getattr(node, 'lineno', '?')}")
 
     def lookup(self, name, env, node):
@@ -828,10 +830,25 @@ class Interp:
             raise _Continue()
         elif isinstance(s, ast.Raise):
             name = "Exception"
+            value = None
             if s.exc is not None:
                 x = s.exc.func if isinstance(s.exc, ast.Call) else s.exc
                 name = unparse(x).rsplit(".", 1)[-1]
-            raise PyRaise(name)
+                cdef = self.module.classes.get(name) if isinstance(x, ast.Name) else None
+                if cdef is not None and isinstance(s.exc, ast.Call):
+                    # an exception class of the module: the object is built by its own __init__ (what it carries is read by handlers)
+                    value = RecV(name, bases=tuple(getattr(cdef, "bases", ()) or ("Exception",)) + ("Exception",))
+                    init = cdef.methods.get("__init__")
+                    if init is not None:
+                        args = [self.eval(a, env) for a in s.exc.args]
+                        kwargs = {k.arg: self.eval(k.value, env) for k in s.exc.keywords if k.arg}
+                        self.classes.setdefault(name, cdef)
+                        self.call(FuncV(init.node, self.genv, init.qualname), [value] + args, kwargs, s)
+                elif not isinstance(s.exc, ast.Call):
+                    v = self.eval(s.exc, env)
+                    if isinstance(v, RecV):
+                        value, name = v, v.cls
+            raise PyRaise(name, value=value)
         elif isinstance(s, (ast.Import, ast.ImportFrom, ast.Global, ast.Nonlocal)):
             if isinstance(s, (ast.Global, ast.Nonlocal)):
                 raise Unsupported("global / nonlocal state in a builder")
